@@ -202,6 +202,22 @@ func bufFor(class string, need int) *inspector.ByteBuffer {
 
 func byteNeed(v reflect.Value) int { return strings.Count(Ser(v), "") / 2 }
 
+// usedBufFor: like bufFor, but the roomier classes already hold something when the copy starts (C07: "however
+// much is accumulated" — before as well as afterwards).
+func usedBufFor(class string, need int) *inspector.ByteBuffer {
+	b := bufFor(class, need)
+	if class != "nil" && class != "tight" {
+		b.BufferizeString("hdr:")
+	}
+	return b
+}
+
+// accumulateMore keeps using the buffer after the copy was made: whatever was handed out must stay as it is.
+func accumulateMore(b *inspector.ByteBuffer, need int) {
+	b.BufferizeString(strings.Repeat("X", need+24))
+	b.Bufferize([]byte("tail"))
+}
+
 // OpCopyTo emits one `CT` record: CopyTo(src, dst, buf) with dst reaching value d through form fd.
 func OpCopyTo(o *Out, e *TypeEntry, src, d reflect.Value, fs, fd Form, bufClass string) {
 	stok, dtok := Ser(src), Ser(d)
@@ -214,10 +230,12 @@ func OpCopyTo(o *Out, e *TypeEntry, src, d reflect.Value, fs, fd Form, bufClass 
 				out = "panic"
 			}
 		}()
-		if err := e.Ins.CopyTo(sarg, darg, bufFor(bufClass, byteNeed(src))); err != nil {
+		buf := usedBufFor(bufClass, byteNeed(src))
+		if err := e.Ins.CopyTo(sarg, darg, buf); err != nil {
 			out = errTok(err)
 			return
 		}
+		accumulateMore(buf, byteNeed(src))
 		shared := SharedCount(sroot(), droot())
 		same := b01(Ser(sroot()) == stok)
 		dq := "t"
@@ -308,10 +326,12 @@ func OpCopyTo2(o *Out, es, ed *TypeEntry, src, d reflect.Value, fs, fd Form, buf
 				out = "panic"
 			}
 		}()
-		if err := es.Ins.CopyTo(sarg, darg, bufFor(bufClass, byteNeed(src))); err != nil {
+		buf := usedBufFor(bufClass, byteNeed(src))
+		if err := es.Ins.CopyTo(sarg, darg, buf); err != nil {
 			out = errTok(err)
 			return
 		}
+		accumulateMore(buf, byteNeed(src))
 		shared := SharedCount(sroot(), droot())
 		same := b01(Ser(sroot()) == stok)
 		out = "ok " + strconv.Itoa(shared) + " - " + same + " " + Ser(droot())
